@@ -70,6 +70,8 @@ func spellSeg(g string, i int) string {
 		return "'select  from'"
 	case "strMulti":
 		return "'a\n  select  b  \n\n\n\n\tc from'"
+	case "strMultiCrlf":
+		return "'a\r\n  select  b  \r\n\r\n\r\n\r\n\tc from'"
 	case "strEsc":
 		return "'it''s  ok'"
 	case "qidKw":
@@ -94,7 +96,7 @@ func spellSeg(g string, i int) string {
 }
 
 var sepText = map[string]string{"sp": " ", "sp2": "  ", "tab": "\t", "nl": "\n", "nlIndent": "\n    ", "nlTab": "\n\t", "nlMixed": "\n\t  ",
-	"blank3": "\n\n\n\n", "trail": "  \n", "crlf": "\r\n"}
+	"blank3": "\n\n\n\n", "trail": "  \n", "crlf": "\r\n", "blank3crlf": "\r\n\r\n\r\n\r\n", "trailcrlf": "  \r\n"}
 
 func spell(c *tcase) string {
 	var b strings.Builder
@@ -191,9 +193,19 @@ func fixAll(text string) string {
 	return text
 }
 
+// hasBs: a literal with a backslash-escaped quote makes the rules fall back to their line-based behaviour
+func hasBs(c *tcase) bool {
+	for _, g := range c.Segs {
+		if g == "strBs" {
+			return true
+		}
+	}
+	return false
+}
+
 func hasMulti(c *tcase) bool {
 	for _, g := range c.Segs {
-		if g == "strMulti" || g == "cmtBlock" || g == "dollarMulti" || g == "strBs" {
+		if g == "strMulti" || g == "strMultiCrlf" || g == "cmtBlock" || g == "dollarMulti" || g == "strBs" {
 			return true
 		}
 	}
@@ -203,7 +215,7 @@ func hasMulti(c *tcase) bool {
 func firstProtected(c *tcase) string {
 	for _, g := range c.Segs {
 		switch g {
-		case "strKw", "strMulti", "strEsc", "strBs", "qidKw", "btKw", "cmtLine", "cmtPlain", "cmtBlockOne", "cmtBlock", "dollarMulti":
+		case "strKw", "strMulti", "strMultiCrlf", "strEsc", "strBs", "qidKw", "btKw", "cmtLine", "cmtPlain", "cmtBlockOne", "cmtBlock", "dollarMulti":
 			return g
 		}
 	}
@@ -223,9 +235,9 @@ func lineContent(c *tcase, li int) string {
 		}
 		if i < len(c.Seps) {
 			switch c.Seps[i] {
-			case "trail", "nl", "nlIndent", "nlTab", "nlMixed", "crlf":
+			case "trail", "nl", "nlIndent", "nlTab", "nlMixed", "crlf", "trailcrlf":
 				line++
-			case "blank3":
+			case "blank3", "blank3crlf":
 				line += 4
 			}
 		}
@@ -246,7 +258,7 @@ func shape(c *tcase) string {
 	m := map[string]bool{}
 	for _, g := range c.Segs {
 		switch g {
-		case "strKw", "strMulti", "strEsc", "strBs", "qidKw", "btKw", "cmtLine", "cmtPlain", "cmtBlockOne", "cmtBlock", "dollarMulti":
+		case "strKw", "strMulti", "strMultiCrlf", "strEsc", "strBs", "qidKw", "btKw", "cmtLine", "cmtPlain", "cmtBlockOne", "cmtBlock", "dollarMulti":
 			m[g] = true
 		}
 	}
@@ -270,7 +282,7 @@ func culprit(c *tcase, out string) string {
 	}
 	for i, g := range c.Segs {
 		switch g {
-		case "strKw", "strMulti", "strEsc", "strBs", "qidKw", "btKw", "cmtLine", "cmtPlain", "cmtBlockOne", "cmtBlock", "dollarMulti":
+		case "strKw", "strMulti", "strMultiCrlf", "strEsc", "strBs", "qidKw", "btKw", "cmtLine", "cmtPlain", "cmtBlockOne", "cmtBlock", "dollarMulti":
 			if !strings.Contains(out, spellSeg(g, i)) {
 				return g
 			}
@@ -296,7 +308,7 @@ func checkRewrite(name string, c *tcase, text string, in tokView, out string, ag
 			run.Violate(core.Violation{Sig: "rewrite-not-idempotent|" + name + "|" + culprit(c, out), Clause: "applying the same fixes again changes nothing", Case: cse, Observe: o2, Expect: out})
 		}
 	}
-	if relint != nil && !hasMulti(c) {
+	if relint != nil && !hasBs(c) {
 		if n := relint(out); n > 0 {
 			run.Violate(core.Violation{Sig: "violations-remain-after-fix|" + name + "|" + firstProtected(c), Clause: "re-linting reports no remaining violation of a rule whose fix was applied", Case: cse, Observe: fmt.Sprintf("%d violations in %q", n, out)})
 		}
@@ -323,11 +335,11 @@ func expectedLines(c *tcase) []lineInfo {
 			switch c.Seps[i] {
 			case "sp2":
 				cur().doubled = true
-			case "trail":
+			case "trail", "trailcrlf":
 				cur().trailing = true
 				cur().blanksAtEdge = true // two blanks at the end of the line: L010 may or may not count them
 				newline(1)
-			case "blank3":
+			case "blank3", "blank3crlf":
 				newline(4)
 				lines[len(lines)-2].blankRun = true
 			case "nlIndent", "nlMixed":
